@@ -45,6 +45,30 @@ Lemma C08_listed_ops_shielded : forallb (fun n => mem n (shielded routines)) lis
 Proof. vm_compute. reflexivity. Qed.
 Print Assumptions C08_listed_ops_shielded.
 
+(* ... and what such a routine reads as `default_filters[-1]` anywhere inside the call is the library's
+   own entry, whatever stack the caller established (st arbitrary): together with C08_frame_real (the
+   caller's stack is restored afterwards) and Props/C08Nav.v (the navigation observers are functions
+   of the tree alone) this is the Gallina side of the insensitivity half.  What remains differential
+   testing: that the bodies of the shielded operations consult the filters only through
+   default_filters[-1] (the generated `readers` list) and have no other dependence on the caller. *)
+Theorem C08_top_during_shielded_call : forall filt seg, shielded_seg seg = true ->
+  forall pre post (st : stack filt), seg = (pre ++ post)%list -> pre <> [] -> post <> [] ->
+  exists st', run_ops filt pre st = Some st' /\ hd_error st' = Some None /\ exists d, st' = (repeat None (S d) ++ st)%list.
+Proof. exact top_during_shielded_call. Qed.
+Print Assumptions C08_top_during_shielded_call.
+
+Theorem C08_shielded_reads_same : forall filt seg, shielded_seg seg = true ->
+  forall pre post (st1 st2 : stack filt), seg = (pre ++ post)%list -> pre <> [] -> post <> [] ->
+  exists s1 s2, run_ops filt pre st1 = Some s1 /\ run_ops filt pre st2 = Some s2 /\ hd_error s1 = hd_error s2.
+Proof. exact shielded_reads_same. Qed.
+Print Assumptions C08_shielded_reads_same.
+
+(* instance: inside NodeBase.xpath, called under the caller's filters 7 nested in 3, the top is `()` *)
+Example C08_shielded_example :
+  let seg := seg_of (map f_segs routines) (index_of "NodeBase.xpath" routines) 0 in
+  shielded_seg seg = true /\ run_ops nat [LPush] [Some 7; Some 3] = Some [None; Some 7; Some 3].
+Proof. vm_compute. split; reflexivity. Qed.
+
 (* non-vacuity: a client with nested blocks of its own around a suspended iterate_descendants
    generator (segments 0 and 1: up to the first yield, between yields) and a call of xpath *)
 Example C08_example :
